@@ -3,6 +3,7 @@ package props
 import (
 	"bytes"
 	"fmt"
+	"github.com/itchio/lake"
 	"path/filepath"
 	"sort"
 	"sync"
@@ -275,7 +276,11 @@ func c17Run(c lib.Case, env *lib.Env) lib.Result {
 		if !nilWhitelist {
 			p.SetSourceIndexWhitelist(wl)
 		}
-		rp := &lib.RecordingPool{Inner: fspool.New(p.GetTargetContainer(), oldDir)}
+		var inner lake.Pool = fspool.New(p.GetTargetContainer(), oldDir)
+		if c.ID%2 == 1 {
+			inner = &lib.StalePool{Inner: inner, Rng: lib.NewRng(lib.Mix(s.Seed, 171))}
+		}
+		rp := &lib.RecordingPool{Inner: inner}
 		fb, err := bowl.NewFreshBowl(bowl.FreshBowlParams{SourceContainer: p.GetSourceContainer(), TargetContainer: p.GetTargetContainer(), TargetPool: rp, OutputFolder: out})
 		if err != nil {
 			res.Violate("bowl-error", desc, err.Error())
